@@ -163,12 +163,20 @@ def classify_case(ctx, case, via, contracts, index=0):
             outcome['load_exception'] = core.describe_exception(exc)
             return None, outcome
         try:
-            cl.classify_intervals(connection, case['sthr'], case['jthr'])
+            # the caller's connection may carry a row factory
+            if index % 5 == 3:
+                connection.row_factory = sqlite3.Row
+                outcome['row_factory'] = True
+            # a threshold is a number: the caller may hand over an int or a numpy scalar
+            outcome['threshold_form'] = index % 3
+            cl.classify_intervals(connection, data.num_form(case['sthr'], index), data.num_form(case['jthr'], index // 3 + 1))
         except Exception as exc:  # pylint: disable=broad-except
+            connection.row_factory = None
             outcome['classify_exception'] = core.describe_exception(exc)
             outcome['has_water_level'] = has_water_level(connection)
             connection.rollback()
             return connection, outcome
+        connection.row_factory = None
         return connection, outcome
     paths = data.write_case_files(case, ctx.workdir, 'c{}'.format(index))
     db = os.path.join(ctx.workdir, 'c{}.sqlite3'.format(index))
@@ -226,6 +234,10 @@ def check_case(ctx, prop, case, via, contracts, index=0):
     connection, outcome = classify_case(ctx, case, via, contracts, index)
     contracts.sink = None
     rec.hit('runs-via-' + via)
+    if outcome.get('row_factory'):
+        rec.hit('function-runs-on-a-connection-with-a-row-factory')
+    if via == 'function' and isinstance(data.num_form(case['jthr'], index // 3 + 1), int):
+        rec.hit('function-runs-with-an-int-jump-threshold')
     if outcome.get('verbosity'):
         rec.hit('cli-runs-with-verbosity-{}'.format(outcome['verbosity']))
     if connection is None:
